@@ -1,7 +1,7 @@
 (* C06 — property theorems. Statements only, each closed by `exact <lemma>` from Proofs.v, with
    Print Assumptions beneath, and the non-vacuity examples. *)
 From Coq Require Import Permutation.
-From C06 Require Import Model CaseDefs Proofs ProofsQ ProofsA ProofsC ProofsL ProofsT ProofsK.
+From C06 Require Import Model CaseDefs Proofs ProofsQ ProofsA ProofsC ProofsL ProofsT ProofsK ProofsS.
 Open Scope Z_scope.
 
 (* SamplesContainer.Merge (all values in Z, also beyond the int64 range of the sentinels): if container a holds exactly (Total, Sum, Min, Max, NotExists, sample
@@ -208,3 +208,45 @@ Example C06_huge_nonvacuous :
   lookup (0%N, 0%N) (a_bins (eval_tree q t)) = Some (Summ (10 ^ 19) (3 * 10 ^ 19) (4 * 10 ^ 19 + 2 ^ 64) 3 0 [] false) /\
   (2 ^ 63 < 10 ^ 19).
 Proof. split; [vm_compute; reflexivity|vm_compute; reflexivity]. Qed.
+
+(* Aggregate / sortBuckets: the reported bucket list is a permutation of the buckets of the shown bins
+   (all bins, or with an interval those that carry a timestamp) and is sorted by the order the code
+   requests for the function (time, then value desc / value asc for min / name for quantile, then the
+   remaining key): no adjacent pair is out of order; NotExists is passed through.  Two buckets compare
+   equal only if they are the same (time, name) bin, so with the bins' distinct keys the order is
+   strict and any correct (also unstable) sort returns this very list. *)
+Theorem C06_buckets_sorted :
+  forall q a,
+    Permutation (fst (aggregate q a))
+                (map (fun kv => agg_bucket q (fst kv) (snd kv)) (ProofsS.shown_bins q a)) /\
+    Sorting.Sorted.Sorted (ProofsS.ble (q_func q)) (fst (aggregate q a)) /\
+    snd (aggregate q a) = a_ne a /\
+    (forall x y, bucket_cmp (q_func q) y x = CompOpp (bucket_cmp (q_func q) x y)) /\
+    (forall x y, bucket_cmp (q_func q) x y = Eq -> b_mid x = b_mid y /\ b_name x = b_name y).
+Proof.
+  intros q a. destruct (ProofsS.aggregate_sorted q a) as (P & S & N).
+  repeat split; try assumption; [apply ProofsS.bucket_cmp_antisym|apply (ProofsS.bucket_cmp_eq _ _ _ H)|apply (ProofsS.bucket_cmp_eq _ _ _ H)].
+Qed.
+Print Assumptions C06_buckets_sorted.
+
+(* Which bins exist (sum/min/max/avg/quantile, every merge tree): bin k exists if and only if a selected
+   document touches it, i.e. contributes a value to it or is counted in its NotExists.  Together with
+   C06_agg_exact: no spurious empty bin is ever created and no touched bin is lost.  (The bins that hold
+   no value but exist are exactly those with NotExists > 0: a time bucket whose documents lack the field,
+   or (MID 0, group) for documents with the group token but without the field.) *)
+Theorem C06_bins_exist_iff_touched :
+  forall q t k, is_field_func (q_func q) = true ->
+    (lookup k (a_bins (eval_tree q t)) <> None <->
+     (CaseDefs.bin_vals q k (ProofsT.selected_docs q t) <> [] \/ (0 < CaseDefs.bin_ne q k (ProofsT.selected_docs q t))%N)).
+Proof. exact ProofsS.bins_exist_iff. Qed.
+Print Assumptions C06_bins_exist_iff_touched.
+
+(* non-vacuity: sum with group; buckets come out by value descending; the bin of a group that only
+   has a document without the field exists (NotExists 1, value NaN) and sorts last *)
+Example C06_sorted_nonvacuous :
+  let q := Query 0 5000 FSum true 0 [] 9 0 in
+  let t := Node (Leaf [Doc 1200 true (Some 1%N) (Some 8); Doc 1300 true (Some 2%N) (Some 30)])
+                (Leaf [Doc 1900 true (Some 3%N) None]) in
+  map (fun b => (b_name b, b_val b, b_ne b)) (fst (aggregate q (eval_tree q t)))
+  = [(2%N, MNum 30, 0%N); (1%N, MNum 8, 0%N); (3%N, MNaN, 1%N)].
+Proof. reflexivity. Qed.
